@@ -99,4 +99,43 @@ def backward [Add α] (st : TState α) (root : Nat) (g : NDArray α) : TState α
       | none => ({ st with g := s.ns }, none)
   | _, _ => (st, none)
 
+/-! ### constructors (tensor.py `zeros`, `ones`, `eye`, `arange`, `*_like`) : default dtype float32 -/
+section Ctor
+variable [One α] [NatCast α] [IntCast α]
+
+/-- the three accepted spellings of a shape: `f(2, 3)`, `f((2, 3))`, `f([2, 3])` -/
+inductive ShapeArgs where
+  | varargs (dims : List Nat)
+  | tuple (dims : List Nat)
+  | list (dims : List Nat)
+deriving Repr, DecidableEq
+
+/-- `if len(shape) == 1 and isinstance(shape[0], (list, tuple)): shape = shape[0]` -/
+def ShapeArgs.norm : ShapeArgs → Shape
+  | .varargs d => d
+  | .tuple d => d
+  | .list d => d
+
+def ctorFull (st : TState α) (args : ShapeArgs) (v : α) : Option (TState α × Nat) :=
+  newLeaf st (full args.norm v) .f32 false
+
+def ctorEye (st : TState α) (n : Nat) : Option (TState α × Nat) :=
+  newLeaf st (ofFn [n, n] (fun i => if i.getD 0 0 = i.getD 1 1 then 1 else 0)) .f32 false
+
+/-- `np.arange(start, stop, step)` on integers: `⌈(stop − start)/step⌉` values -/
+def arangeVals (start stop step : Int) : Option (List Int) :=
+  if step = 0 then none
+  else
+    let n : Int := if step > 0 then (stop - start + step - 1) / step else (start - stop + (-step) - 1) / (-step)
+    some ((List.range n.toNat).map (fun (k : Nat) => start + step * (k : Int)))
+
+def ctorArange (st : TState α) (start stop step : Int) : Option (TState α × Nat) :=
+  (arangeVals start stop step).bind (fun vs => newLeaf st ⟨[vs.length], vs.map (fun (v : Int) => (IntCast.intCast v : α))⟩ .f32 false)
+
+def ctorLike (st : TState α) (i : Nat) (v : α) : Option (TState α × Nat) :=
+  match st.vals[i]?, st.dtypes[i]? with
+  | some x, some dt => newLeaf st (full x.shape v) dt false
+  | _, _ => none
+end Ctor
+
 end Synap.Api
